@@ -1283,7 +1283,7 @@ func runListEdit(k *vf.Case) {
 
 func main() {
 	vf.Main("C15", "exploration", func(c *vf.Ctx) {
-		c.Rule = "child process per batch of programs: (A) sequential programs of 5-60 Register/Unregister(registered, never registered, already unregistered)/Tracer/Start+End/ForceFlush/Shutdown(live, deadline, cancelled) on the TracerProvider against a membership model; (B) stock matrix {Simple,Batch} span processor x {recording, stdouttrace, nil} exporter, (C) {Manual, Periodic} reader x {recording incl. failing export, stdoutmetric}, (D) {Simple,Batch} log processor x {recording, stdoutlog, nil}, each with 1-4 Shutdown calls issued sequentially or concurrently, through the provider or the component, then telemetry/flush/shutdown calls after Shutdown; (E) concurrent op alphabet on the TracerProvider from 2-16 goroutines under -race; (F) 4-16 producers, 0-2 flushers and 1-2 Shutdown callers released together on a batch span processor (blocking and dropping, queue 1-4), log batch processor (queue 1-8) or periodic reader with a slow exporter: every call must return (watchdog 30 s + two identical stack samples). distinct = distinct (family, component kinds, shutdown pattern, context kind) signatures"
+		c.Rule = "child process per batch of programs: (A) sequential programs of 5-60 Register/Unregister(registered, never registered, already unregistered)/Tracer/Start+End/ForceFlush/Shutdown(live, deadline, cancelled) on the TracerProvider against a membership model; (B) stock matrix {Simple,Batch} span processor x {recording, stdouttrace, nil} exporter, (C) {Manual, Periodic} reader x {recording incl. failing export, stdoutmetric}, (D) {Simple,Batch} log processor x {recording, stdoutlog, nil}, each with 1-4 Shutdown calls issued sequentially or concurrently, through the provider or the component, then telemetry/flush/shutdown calls after Shutdown; (E) concurrent op alphabet on the TracerProvider from 2-16 goroutines under -race; (F) 4-16 producers, 0-2 flushers and 1-2 Shutdown callers released together on a batch span processor (blocking and dropping, queue 1-4), log batch processor (queue 1-8) or periodic reader with a slow exporter: every call must return (watchdog 30 s + two identical stack samples); list-edit family; processors and exporters whose Shutdown reports an error; exporters that read every span they are handed. distinct = distinct (family, component kinds, shutdown pattern, context kind) signatures"
 		c.Assume = []string{"'exactly once' is asserted when the first Shutdown carried a live context; with a cancelled first context the providers return ctx.Err() early by design, so only 'at most once, no panic, no hang' is asserted", "for the log SimpleProcessor 'nothing more is exported' is measured on the stock exporter's output", "a repeated MeterProvider/Reader Shutdown may return the documented ErrReaderShutdown"}
 		otel.SetErrorHandler(otel.ErrorHandlerFunc(func(error) {}))
 		otel.SetLogger(logr.Discard())
